@@ -116,6 +116,8 @@ type query struct {
 	Limit   int // -1 = none
 	Offset  int
 	Ordered bool
+
+	nullCmpDefinite bool // diagnostic evaluation variant, see evalNullCmpVariant
 }
 
 // voices
@@ -277,6 +279,58 @@ func (q *query) signature() string {
 		return "mixed"
 	}
 	return strings.Join(names, "+")
+}
+
+// walkAtoms calls f for every atom of the query's WHERE and residual ON predicates.
+func (q *query) walkAtoms(f func(*atom, *colSpec)) {
+	var walk func(p pred)
+	walk = func(p pred) {
+		switch p := p.(type) {
+		case *atom:
+			f(p, q.schema.Tables[q.Tables[p.A]].Cols[p.C])
+		case *boolOp:
+			for _, k := range p.Kids {
+				walk(k)
+			}
+		}
+	}
+	walk(q.Where)
+	walk(q.OnExtra)
+}
+
+// hasCollationEqualInList: an IN list (or BETWEEN-free equality list) over a case-insensitive column that names two
+// different strings which the collation equates.
+func (q *query) hasCollationEqualInList() bool {
+	found := false
+	q.walkAtoms(func(a *atom, c *colSpec) {
+		if !c.ci() || (a.Op != "in" && a.Op != "notin") {
+			return
+		}
+		for i := range a.Lits {
+			for j := i + 1; j < len(a.Lits); j++ {
+				if !a.Lits[i].Null && !a.Lits[j].Null && a.Lits[i].K == a.Lits[j].K && a.Lits[i].Text != a.Lits[j].Text {
+					found = true
+				}
+			}
+		}
+	})
+	return found
+}
+
+// hasNegativeLiteralOnUnsigned: a comparison of an UNSIGNED integer column with a negative literal.
+func (q *query) hasNegativeLiteralOnUnsigned() bool {
+	found := false
+	q.walkAtoms(func(a *atom, c *colSpec) {
+		if c.Kind != kInt || !strings.Contains(c.SQLType, "unsigned") {
+			return
+		}
+		for _, l := range a.Lits {
+			if !l.Null && l.R != nil && l.R.Sign() < 0 {
+				found = true
+			}
+		}
+	})
+	return found
 }
 
 // decidable reports whether the brute-force evaluator (voice 5) decides this query.
